@@ -80,6 +80,16 @@ def relayExcl (isSelf isTarget : Bool) (state : Nat) : Bool :=
 def pushPullExcl (isSelf : Bool) (state : Nat) : Bool :=
   isSelf || state != 0
 
+/-- what `resetNodes` keeps (before the final shuffle): the records in front of the index `moveDeadNodes`
+returned, and - never reaped - the node's own record when it sits behind that index (it is swapped to the
+index, which then moves one up) -/
+def resetKeep (self : String) (xs : Array SNode) : List SNode :=
+  let r := moveDead xs
+  let kept := r.1.toList.take r.2
+  match (r.1.toList.drop r.2).find? (fun n => n.name == self) with
+  | some s => kept ++ [s]
+  | none => kept
+
 /-! the three loops over the member list in memberlist.go -/
 
 /-- `anyAlive()`: is there a member other than the node itself that has not departed? (`Leave` waits for
